@@ -83,6 +83,8 @@ CHARS: list[tuple[str, str]] = [
     ("a", "a"), ("space", " "), ("squote", "'"), ("dquote", '"'), ("backslash", "\\"), ("dollar", "$"), ("backtick", "`"),
     ("at", "@"), ("newline", "\n"), ("semicolon", ";"), ("amp", "&"), ("hash", "#"), ("percent", "%"), ("bang", "!"),
     ("eacute", "é"), ("empty", ""),
+    # characters of curl's URL globbing ({a,b} / [1-3]); harmless everywhere but in the URL
+    ("lbracket", "["), ("rbracket", "]"), ("lbrace", "{"), ("rbrace", "}"),
 ]
 CHAR = dict(CHARS)
 POSITIONS = ["alone", "a+c", "c+a", "a+c+a"]
